@@ -144,6 +144,10 @@ def dec8 (s : Bytes) : Option String :=
   if allDigits s ∧ decVal s < 2 ^ 64 then some ("ok " ++ hex (be8 (decVal s))) else some "err"
 
 def isHexChar (c : UInt8) : Bool := (Model.unhex c).isSome
+/-- `n` bytes, big-endian, of `v` (mod 256^n) -/
+def be : Nat → Nat → Bytes
+  | 0, _ => []
+  | n + 1, v => be n (v / 256) ++ [(v % 256).toUInt8]
 def hexVal (s : Bytes) : Nat := s.foldl (fun n c => n * 16 + (Model.unhex c).getD 0) 0
 
 def hexts (s : Bytes) : Option String :=
@@ -154,6 +158,16 @@ def leftpad (s : Bytes) (w : Int) : Option String :=
   if w < 0 ∨ w > 2 ^ 20 then none
   else if s.length ≥ w.toNat then some ("ok " ++ hex (s.drop (s.length - w.toNat)))
   else some ("ok " ++ hex (List.replicate (w.toNat - s.length) 48 ++ s))
+
+/-- MustHexPadLeft: the last `2*size` hexadecimal digits of the text, left-padded with '0', as `size` bytes; a kept character
+that is not a hexadecimal digit makes the (documented) Must helper panic.  Sizes outside 0..2^19 are outside the property. -/
+def musthex (s : Bytes) (size : Int) : Option String :=
+  if size < 0 ∨ size > 2 ^ 19 then none
+  else
+    -- only the digits that are kept have to be hexadecimal
+    let w := 2 * size.toNat
+    let digits := if s.length ≥ w then s.drop (s.length - w) else List.replicate (w - s.length) 48 ++ s
+    if digits.all isHexChar then some ("ok " ++ hex (be (w / 2) (hexVal digits))) else some "panic"
 
 /-- RFC 6287 numeric question: decimal ↦ hexadecimal text, right-padded with '0' to 256 hex digits = 128 bytes -/
 def question (s : Bytes) : Option String :=
